@@ -1,6 +1,6 @@
 """Return a new array of given shape and type, filled with ones."""
 from __future__ import annotations
-from typing import Any, Sequence
+from typing import Any, Optional, Sequence
 
 import numpy
 import numpy.typing
@@ -23,6 +23,7 @@ def ones(
     shape: Union[int, Sequence[int]],
     dtype: numpy.typing.DTypeLike = float,
     order: Order = "C",
+    device: Optional[str] = None,
 ) -> ndpoly:
     """
     Return a new array of given shape and type, filled with ones.
@@ -46,4 +47,5 @@ def ones(
         polynomial([1.0, 1.0, 1.0, 1.0, 1.0])
 
     """
+    del device  # passed along by ``numpy.ones(..., like=poly)``
     return numpoly.polynomial(numpy.ones(shape, dtype=dtype, order=order))
